@@ -10,7 +10,6 @@ import math
 from ..rt import RT, MonitorViolation
 from ..ctx import hx
 from ..model import nt
-from ..model import drbg
 
 LEVEL = "exploration"
 RULE = ("operands from structured digit patterns (0, 1, B-1, B/2, single bit, runs, random) of 0..capacity digits, both "
@@ -270,8 +269,8 @@ def run_mod(E):
             R.bn_put(a, x)
             R.bn_put(m, 0)
             E.junk(c)
-            r = R.call("bn_mod_basic", c, a, m)
-            ctx.check(r.caught, ctx.cur_key + "|accepted", None)
+            R.call("bn_mod_basic", c, a, m)      # no modulus: outside the domain, no verdict (sanitizers only)
+            ctx.ok()
             return
         exp = x % mm
         alias = rng.randrange(2)
@@ -320,12 +319,12 @@ def run_mod(E):
                 return
             R.bn_put(m, mm)
             E.junk(u, c)
-            r = R.call("bn_mod_pre_barrt", u, m)
-            ctx.check(r.caught, "bn_mod_pre_barrt|modulus-not-positive|accepted", None)
+            # "modulo a positive integer": outside the domain, no verdict (sanitizers only)
+            R.call("bn_mod_pre_barrt", u, m)
             R.bn_put(a, 12345)
             R.bn_put(u, 1)
-            r = R.call("bn_mod_barrt", c, a, m, u)
-            ctx.check(r.caught, ctx.cur_key + "|accepted", None)
+            R.call("bn_mod_barrt", c, a, m, u)
+            ctx.ok()
             return
         k = nd(mm)
         x = reducible(mm, CAP)
@@ -367,7 +366,8 @@ def run_mod(E):
             for fn, args in (("bn_mod_pre_monty", (u, m)), ("bn_mod_monty_conv", (c, a, m)), ("bn_mod_monty_back", (c, a, m)),
                              ("bn_mod_monty_basic", (c, a, m, u)), ("bn_mod_monty_comba", (c, a, m, u))):
                 r = R.call(fn, *args)
-                ctx.check(r.caught and r.err == NV, fn + "|modulus-even-or-negative|accepted", {"caught": r.caught, "err": r.err, "m": hx(mm)})
+                if fn == "bn_mod_pre_monty":     # the only one whose header documents the throw; the rest: no verdict
+                    ctx.check(r.caught and r.err == NV, fn + "|modulus-even-or-negative|accepted", {"caught": r.caught, "err": r.err, "m": hx(mm)})
             return
         k = nd(mm)
         Rr = 1 << (k * W)
@@ -383,7 +383,7 @@ def run_mod(E):
                 x %= mm
             if not ctx.begin("bn_mod_monty_conv|%s|%s" % (sg(x), "lt" if abs(x) < mm else "ge"), [hx(x), hx(mm)], nontrivial=bool(x)):
                 return
-            ctx.check(not r.caught and uu is not None and 0 <= uu < B and (uu * mm + 1) % B == 0, "bn_mod_pre_monty|odd|value", {"u": hx(uu or 0), "m": hx(mm)})
+            ctx.check(not r.caught, "bn_mod_pre_monty|odd|unexpected-error", {"m": hx(mm)})     # the constant itself is judged through the reducers
             R.bn_put(a, x)
             E.junk(c)
             alias = rng.randrange(2)
@@ -686,8 +686,8 @@ def run_mod(E):
                 E.unchanged([(E.arr_at(pa, i), xs[i]), (E.arr_at(pb, i), es[i])], key)
             R.free(pa)
             R.free(pb)
-        if fn == "bn_mxp_sim_few" and n > 8 and mm != 1:
-            ctx.check(r.caught, key + "|accepted", None)        # documented: up to 8 integers
+        if fn == "bn_mxp_sim_few" and n > 8 and r.caught:
+            ctx.ok()        # documented for up to 8 integers: a refusal is fine, a value must be right
             return
         if not ok:
             ctx.check(r.caught, key + "|accepted-non-invertible", None)
@@ -958,10 +958,11 @@ def run_num(E):
         # both vectors lie in the lattice {(s, t): s + t*x = 0 mod y} (v2 up to the documented sign of its first entry)
         ctx.check((cv + dv * x) % y == 0, key + "|v1-not-in-lattice", det)
         ctx.check((ev + fv * x) % y == 0 or (-ev + fv * x) % y == 0, key + "|v2-not-in-lattice", det)
-        # they form a basis of it (|det| = y) and v1 is short (both entries at most sqrt(y) + 1)
+        # they form a basis of it (|det| = y) and one of them is short (entries at most 2*sqrt(y): a shortest lattice
+        # vector has max-norm <= 1.08*sqrt(y)); order and choice of the second vector are left to the algorithm
         ctx.check(abs(cv * fv - dv * ev) == y, key + "|not-a-basis", det)
         s = math.isqrt(y) + 1
-        ctx.check(abs(cv) <= s and abs(dv) <= s, key + "|v1-not-short", det)
+        ctx.check(min(max(abs(cv), abs(dv)), max(abs(ev), abs(fv))) <= 2 * s, key + "|no-short-vector", det)
         E.unchanged([(a, y if swap else x), (b, x if swap else y)], key)
 
     def lcm():
@@ -1174,17 +1175,19 @@ def run_num(E):
 
 
 # =============================================================================================== part "prime"
-def predict_first_prime(seed, bits, W):
-    """the prime bn_gen_prime_basic(bits) returns when the generator has just been instantiated with seed (Hash_DRBG
-    model of C15; bn_rand fills ceil(bits/W) digits per draw) - used to steer around inputs that starve
-    bn_gen_prime_factor"""
-    m = drbg.HashDRBG(seed)
-    nb = (bits + W - 1) // W * (W // 8)
-    for _ in range(200000):
-        x = int.from_bytes(m.generate(nb), "little") & ((1 << bits) - 1)
-        if x.bit_length() == bits and nt.is_prime(x):
-            return x
-    return None
+def instantiate_from(R, seed):
+    R.wr_int(R.ctx_field("seeded"), 0)
+    sd = R.put(seed)
+    R.call("rand_seed", sd, len(seed))
+    R.free(sd)
+
+
+def first_prime_from_seed(R, seed, bits, obj):
+    """the prime bn_gen_prime(bits) returns when the generator has just been instantiated with seed - asked from the
+    library itself (used only to steer around inputs that starve bn_gen_prime_factor)"""
+    instantiate_from(R, seed)
+    r = R.call("bn_gen_prime", obj, bits)
+    return None if r.caught else R.bn_val(obj)
 
 
 def factor_candidates(av, abits, bbits):
@@ -1210,7 +1213,6 @@ def run_prime(E):
     a, b, c = E.pool[:3]
     comps = [(n, "spsp-psi" if tg.startswith("spsp-first") else ("p(2p-1)" if tg.startswith("p(2p-1)") else tg)) for n, tg in composites()]
     ctx.note("hostile_composites", {t: sum(1 for _, tg in comps if tg == t) for t in sorted(set(tg for _, tg in comps))})
-    table_max = 0xDF if E.w8 else 0xE57              # largest entry of the trial-division table of this digit size
     big = 260 if E.w8 else 1100                      # bit limit for the expensive tests in the quick tier
     sol_big = 140 if E.w8 else 600
 
@@ -1269,11 +1271,12 @@ def run_prime(E):
             if truth:
                 ctx.check(r.i == 1, key + "|rejected-prime", {"ret": r.i})
             else:
-                smallf = n > 1 and any(n % q == 0 for q in nt.SMALL_PRIMES if q <= table_max)
-                if n in (0, 1) or smallf:
+                # which divisors are tried is the implementation's choice: only 0 and 1 must be rejected outright
+                if n in (0, 1):
                     ctx.check(r.i == 0, key + "|accepted-composite", {"ret": r.i})
                 else:
                     ctx.check(r.i in (0, 1), key + "|return-value", {"ret": r.i})
+                    ctx.add("bn_is_prime_basic_composites_%s" % ("rejected" if r.i == 0 else "passed_on"), 1)
             return
         if truth:
             ctx.check(r.i == 1, key + "|rejected-prime", {"ret": r.i})
@@ -1329,21 +1332,18 @@ def run_prime(E):
             bbits = rng.choice([abits, abits - 1])
             key = "bn_gen_prime_factor|bbits<=abits"
         seed = rng.getrandbits(256).to_bytes(32, "big")
-        apred = None
-        if not bad and R.target("bn_gen_prime") == "bn_gen_prime_basic":
-            # the routine draws a once and then looks for u with a*u + 1 prime of exactly bbits bits; when a is at the
-            # bottom of its range (almost) no u qualifies and the call never returns (directed class of the fatal
-            # part): predict a with the generator model and draw around that predicate
-            apred = predict_first_prime(seed, abits, W)
+        if not bad:
+            # the routine draws the prime a once and then looks for u with a*u + 1 prime of exactly bbits bits; when a is
+            # at the bottom of its range (almost) no u qualifies and the call never returns (directed class of the fatal
+            # part).  Draw around that predicate: ask the library itself which prime the generator yields first from
+            # this seed (no model of how primes are sampled); if the routine draws differently this is only a heuristic
+            apred = first_prime_from_seed(R, seed, abits, a)
             if apred is None or factor_candidates(apred, abits, bbits) < 40 * bbits:
                 ctx.add("bn_gen_prime_factor_starved_inputs_avoided", 1)
                 return
         if not ctx.begin(key, [abits, bbits, seed.hex()], budget=60):
             return
-        R.wr_int(R.ctx_field("seeded"), 0)
-        sd = R.put(seed)
-        R.call("rand_seed", sd, 32)
-        R.free(sd)
+        instantiate_from(R, seed)
         E.junk(a, b)
         r = R.call("bn_gen_prime_factor", a, b, abits, bbits)
         if bad:
@@ -1356,8 +1356,6 @@ def run_prime(E):
         ctx.check(va is not None and nt.is_prime(va, rng) and va.bit_length() == abits, key + "|factor", det)
         ctx.check(vb is not None and nt.is_prime(vb, rng) and vb.bit_length() == bbits, key + "|prime", det)
         ctx.check(va and vb and (vb - 1) % va == 0, key + "|divisibility", det)
-        if apred is not None:
-            ctx.check(va == apred, key + "|not-the-generator-stream", {"a": hx(va or 0), "model": hx(apred)})
 
     def factor():
         # Pollard p-1 with a fixed bound: may or may not find a factor; whatever it returns must be one
@@ -1430,7 +1428,7 @@ def run_prime(E):
                     return
                 if tag == "prime":
                     ctx.check(r.i == 1, key + "|rejected-prime", {"ret": r.i})
-                elif fn != "bn_is_prime_basic" or n in (0, 1) or (n > 1 and any(n % q == 0 for q in nt.SMALL_PRIMES if q <= table_max)):
+                elif fn != "bn_is_prime_basic" or n in (0, 1):
                     ctx.check(r.i == 0, key + "|accepted-composite", {"ret": r.i})
             guard(ctx, one)
     ops = [is_prime] * 12 + [gen_prime] * 3 + [gen_factor] + [is_factor] * 2
@@ -1496,13 +1494,18 @@ def run_rec(E, only_curves=False):
         R.free(buf)
         return r, ln, data
 
-    def too_short(fn, key, need, args_after):
-        """*len one below the documented minimum: ERR_NO_BUFFER, nothing written (the block has exactly that size)"""
+    def too_short(fn, key, need, args_after, decodes=None):
+        """a buffer one byte below the bound used above (exact-size block: an overrun is an ASan report): either the
+        documented ERR_NO_BUFFER, or a result that fits the announced length (and decodes, where a decoder is given) -
+        how much room a routine insists on beyond what it writes is its own choice"""
         if need < 1:
             return
         r, ln, data = buf_call(fn, need - 1, args_after)
-        ctx.check(r.caught and r.err == NB, key + "|short-buffer-accepted", {"need": need, "caught": r.caught, "err": r.err, "len": ln})
-        ctx.check(data == bytes([FILL]) * (need - 1), key + "|short-buffer-written", None)
+        if r.caught:
+            ctx.check(r.err == NB, key + "|short-buffer-error-code", {"err": r.err})
+        else:
+            ctx.check(ln <= need - 1 and (decodes is None or decodes(data[:ln])), key + "|short-buffer-overrun-or-wrong",
+                      {"need": need, "len": ln})
 
     def kcls(k, w=None):
         s = "zero" if k == 0 else ("neg" if k < 0 else "pos")
@@ -1535,7 +1538,7 @@ def run_rec(E, only_curves=False):
             ctx.check(all(x < (1 << w) for x in dg), key + "|digit-range", {"digits": dg[:12]})
             E.unchanged([(a, k)], key)
         if k and need > 1 or (k == 0):
-            too_short("bn_rec_win", key, need, (a, w))
+            too_short("bn_rec_win", key, need, (a, w), lambda dd: sum(x << (w * i) for i, x in enumerate(dd)) == abs(k))
 
     # ------------------------------------------------------------------ sliding window
     def rec_slw():
@@ -1578,7 +1581,7 @@ def run_rec(E, only_curves=False):
             nz = [i for i, x in enumerate(dg) if x]
             ctx.check(all(j - i >= w for i, j in zip(nz, nz[1:])), key + "|non-adjacency", {"positions": nz[:12]})
             E.unchanged([(a, k)], key)
-        too_short("bn_rec_naf", key, l + 1, (a, w))
+        too_short("bn_rec_naf", key, l + 1, (a, w), lambda dd: sum(s8(x) << i for i, x in enumerate(dd)) == abs(k))
 
     # ------------------------------------------------------------------ regular recoding
     def rec_reg():
@@ -1601,15 +1604,16 @@ def run_rec(E, only_curves=False):
         if longer:
             # outside the domain (k does not fit n bits): an error or any digits, but never more than l + 1 bytes
             if not r.caught:
-                ctx.check(ln == l + 1, key + "|length", {"len": ln, "bound": l + 1})
+                ctx.check(ln <= l + 1, key + "|length", {"len": ln, "bound": l + 1})
             return
         if ctx.check(not r.caught, key + "|unexpected-error", {"err": r.err}):
             dg = [s8(x) for x in data[:ln]]
-            ctx.check(ln == l + 1, key + "|length", {"len": ln, "bound": l + 1})
+            ctx.check(ln <= l + 1, key + "|length", {"len": ln, "bound": l + 1})
             ctx.check(sum(x << ((w - 1) * i) for i, x in enumerate(dg)) == k, key + "|decode", {"digits": dg[:16], "len": ln})
             if k & 1:
-                ctx.check(all(x & 1 and abs(x) < (1 << (w - 1)) for x in dg[:l]), key + "|not-regular", {"digits": dg[:16]})
-                ctx.check(dg[l] in (0, 1) if len(dg) > l else False, key + "|top-digit", {"top": dg[-1] if dg else None})
+                # regular: every digit but the most significant one is odd (non-zero) and in the signed digit set
+                ctx.check(all(x & 1 and abs(x) < (1 << (w - 1)) for x in dg[:-1]), key + "|not-regular", {"digits": dg[:16]})
+                ctx.check(bool(dg) and abs(dg[-1]) < (1 << (w - 1)), key + "|top-digit", {"top": dg[-1] if dg else None})
             E.unchanged([(a, k)], key)
         too_short("bn_rec_reg", key, l + 1, (a, n, w))
 
@@ -1741,8 +1745,6 @@ def run_rec(E, only_curves=False):
             val = nt.tau_eval([alpha(x, tab, w) for x in dg], u)
             delta = nt.tau_delta(mm, u)
             ctx.check(nt.tau_divides(delta, (abs(k) - val[0], -val[1]), u), key + "|decode-not-congruent-mod-delta", {"value": [hx(val[0]), hx(val[1])], "len": ln})
-            if res is not None:
-                ctx.check((res[0][0], res[1][0]) == val, key + "|differs-from-tnaf_mod", {"value": [hx(val[0]), hx(val[1])]})
             ctx.add("tnaf_len_minus_m_max_seen_sum", 0)
             tl = ctx.info.get("tnaf_max_len_minus_m", "-99")
             if ln - mm > int(tl):
@@ -1773,10 +1775,11 @@ def run_rec(E, only_curves=False):
         r, ln, data = buf_call("bn_rec_rtnaf", cap, (a, u, mm, w))
         if ctx.check(not r.caught, key + "|unexpected-error", {"err": r.err}):
             dg = [s8(x) for x in data[:ln]]
-            ctx.check(l <= ln <= l + 2, key + "|length", {"len": ln, "l": l})
-            ctx.check(all(x & 1 and abs(x) < (1 << (w - 1)) + (1 if w == 2 else 0) for x in dg[:l]), key + "|not-regular", {"digits": dg[:16]})
+            ctx.check(ln <= cap, key + "|length", {"len": ln, "cap": cap})
+            ctx.check(all(x & 1 and abs(x) < (1 << (w - 1)) + (1 if w == 2 else 0) for x in dg[:-2]), key + "|not-regular", {"digits": dg[:16]})
             val = nt.tau_eval([alpha(x, tab, w) for x in dg], u, step=w - 1)
-            ctx.check((res[0][0], res[1][0]) == val, key + "|decode", {"value": [hx(val[0]), hx(val[1])], "r0": hx(res[0][0]), "r1": hx(res[1][0])})
+            ctx.check(nt.tau_divides(nt.tau_delta(mm, u), (k - val[0], -val[1]), u), key + "|decode-not-congruent-mod-delta",
+                      {"value": [hx(val[0]), hx(val[1])], "len": ln})
             E.unchanged([(a, k)], key)
 
     # ------------------------------------------------------------------ GLV / Frobenius / SAC on the endomorphism curves
@@ -1973,6 +1976,11 @@ def run_rec(E, only_curves=False):
             if cof:
                 ctx.check((sum(v * pow(lam, i, n) for i, v in enumerate(ki)) - k) % n == 0, key + "|decode", det)
                 ctx.check(all(abs(v).bit_length() <= n.bit_length() // 4 + 3 for v in ki), key + "|length", det)
+            elif cu is not None:
+                # curve parameter: x is the eigenvalue of the endomorphism modulo the order, so the contract is the
+                # congruence and short sub-scalars (an exact base-x expansion is one way to get there)
+                ctx.check((sum(v * x ** i for i, v in enumerate(ki)) - k) % n == 0, key + "|decode", det)
+                ctx.check(all(abs(v) <= 2 * abs(x) for v in ki), key + "|length", det)
             else:
                 ctx.check(sum(v * x ** i for i, v in enumerate(ki)) == k, key + "|decode", det)
                 ctx.check(all(abs(v) < abs(x) for v in ki), key + "|digit-range", det)
@@ -2015,8 +2023,8 @@ def run_rec(E, only_curves=False):
         if not ctx.begin(key, [[hx(v) for v in ks], hx(uu), mm, nbits, int(cof)]):
             return
         arr = E.arr_new(mm)
-        cap = L + 1
-        total = max(mm * L, cap)
+        cap = L + 4
+        total = mm * cap
         buf = R.mem(total, FILL)
         try:
             for i, v in enumerate(ks):
@@ -2028,7 +2036,7 @@ def run_rec(E, only_curves=False):
                 return
             ln = E.getlen()
             data = R.get(buf, total)
-            if not ctx.check(ln == L, key + "|length", {"len": ln, "expected": L}):
+            if not ctx.check(1 <= ln <= cap and all(v.bit_length() <= ln for v in ks), key + "|length", {"len": ln, "capacity": cap}):
                 return
             rows = [list(data[j * ln:(j + 1) * ln]) for j in range(mm)]
             ctx.check(all(v in (0, 1) for row in rows for v in row), key + "|digit-range", None)
@@ -2043,12 +2051,17 @@ def run_rec(E, only_curves=False):
             R.free(buf)
         # a per-row capacity equal to the length is refused
         buf = R.mem(total, FILL)
-        E.setlen((nbits + cc * mm - 1) // (cc * mm) + 1)
+        small = (nbits + cc * mm - 1) // (cc * mm) + 1
+        E.setlen(small)
         arr = E.arr_new(mm)
         for i, v in enumerate(ks):
             R.bn_put(E.arr_at(arr, i), v)
         r = R.call("bn_rec_sac", buf, E.lenp, arr, b, cc, mm, nbits, int(cof))
-        ctx.check(r.caught and r.err == NB, key + "|short-buffer-accepted", None)
+        # a per-row capacity the recoding cannot be shorter than: refusal (documented code) or a row length within it
+        if r.caught:
+            ctx.check(r.err == NB, key + "|short-buffer-error-code", {"err": r.err})
+        else:
+            ctx.check(E.getlen() <= small, key + "|short-buffer-overrun-or-wrong", {"len": E.getlen(), "capacity": small})
         R.free(arr)
         R.free(buf)
 
@@ -2202,18 +2215,15 @@ def run_fatal(E):
     # bn_gen_prime_factor(a, b, 8, 12): when the 8-bit prime drawn is 131 no u in [8, 16) gives a 12-bit a*u + 1
     def starved(seed):
         def body(key):
-            R.wr_int(R.ctx_field("seeded"), 0)
-            sd = R.put(seed)
-            R.call("rand_seed", sd, 32)
-            R.free(sd)
+            instantiate_from(R, seed)
             E.junk(a, b)
             r = R.call("bn_gen_prime_factor", a, b, 8, 12)
             ctx.check(r.caught or r.i == K["RLC_ERR"], key + "|returned", {"a": hx(R.bn_val(a) or 0), "b": hx(R.bn_val(b) or 0), "ret": r.i})
         return body
-    if R.target("bn_gen_prime") == "bn_gen_prime_basic":
+    if True:
         for i in range(4000):
             seed = b"C09 starved bn_gen_prime_factor %04d" % i
-            if predict_first_prime(seed, 8, W) == 131 and factor_candidates(131, 8, 12) == 0:
+            if first_prime_from_seed(R, seed, 8, a) == 131 and factor_candidates(131, 8, 12) == 0:
                 case("bn_gen_prime_factor|no-candidate-multiplier", [8, 12, seed.hex(), "a = 131"], starved(seed), budget=5)
                 break
 
